@@ -339,17 +339,20 @@ structure SwSt (υ : Type) where
   gens : Int → Nat := fun _ => 0
   w : World υ
 
+/-- stop the graph in the active slot (`GraphView::stop` returns at once when it is not started): the body of
+    `switch_teardown` / `switch_node_stop`, and what the destruction of the storage does (swallowing) -/
+def swStop {υ : Type} (cfg : Cfg) (h : Hooks υ) (m : SwSt υ) : SwSt υ × Option String :=
+  match m.active with
+  | some e =>
+    if e.started then
+      let r := childStop h cfg.n e.cid m.w
+      ({ m with active := some { e with started := false }, w := r.1 }, r.2)
+    else (m, none)
+  | none => (m, none)
+
 /-- `activate_branch`: stop the active branch, then start the new one (both paths of the code stop first) -/
 def swActivate {υ : Type} (cfg : Cfg) (h : Hooks υ) (k : Int) (m : SwSt υ) : SwSt υ × Option String :=
-  -- stop the active graph (`GraphView::stop` returns at once when it is not started)
-  let stopRes : SwSt υ × Option String :=
-    match m.active with
-    | some e =>
-      if e.started then
-        let r := childStop h cfg.n e.cid m.w
-        ({ m with active := some { e with started := false }, w := r.1 }, r.2)
-      else (m, none)
-    | none => (m, none)
+  let stopRes := swStop cfg h m
   match stopRes.2 with
   | some x => (stopRes.1, some x)      -- `active_slot` still names the (stopped) old graph
   | none =>
@@ -382,16 +385,6 @@ def swCycle {υ : Type} (cfg : Cfg) (h : Hooks υ) (I : SwIn) (m : SwSt υ) : Sw
         ({ r.1 with w := q.1 }, q.2)
       else (r.1, none)
     | none => (r.1, none)
-
-/-- `switch_node_stop` = `switch_teardown`; also what the destruction of the storage does (swallowing) -/
-def swStop {υ : Type} (cfg : Cfg) (h : Hooks υ) (m : SwSt υ) : SwSt υ × Option String :=
-  match m.active with
-  | some e =>
-    if e.started then
-      let r := childStop h cfg.n e.cid m.w
-      ({ m with active := some { e with started := false }, w := r.1 }, r.2)
-    else (m, none)
-  | none => (m, none)
 
 def swRunCycles {υ : Type} (cfg : Cfg) (h : Hooks υ) : List SwIn → Nat → SwSt υ → SwSt υ × Option String
   | [], _, m => (m, none)
